@@ -8,9 +8,10 @@ Contract (see DESIGN.md §2.6):
 import json, os, re, subprocess, sys, time, shutil, hashlib
 
 VERIF = os.path.dirname(os.path.dirname(os.path.abspath(__file__)))
-REPO = "/repo"
+REPO = os.environ.get("VERIF_REPO", "/repo")
 SPEC = os.path.join(VERIF, "spec")
-HARNESS_DIR = os.path.join(VERIF, "harness")
+HARNESS_DIR = os.environ.get("VERIF_HARNESS_DIR", os.path.join(VERIF, "harness"))
+OUT = os.environ.get("VERIF_OUT", VERIF)   # where work/, evidence/, replays/ go (bin/mutcheck redirects it)
 HARNESS_BINDIR = os.path.join(HARNESS_DIR, "target", "release")
 TLA_JARS = "/opt/veriftools/tla/tla2tools.jar:/opt/veriftools/tla/CommunityModules-deps.jar"
 TLA_LIB = ":".join([SPEC, os.path.join(SPEC, "mc"), os.path.join(SPEC, "trace")])
@@ -32,7 +33,7 @@ def seed():
 
 
 def workdir(pid, sub=None, clean=False):
-    d = os.path.join(VERIF, "work", pid)
+    d = os.path.join(OUT, "work", pid)
     if sub:
         d = os.path.join(d, sub)
     if clean and os.path.isdir(d):
@@ -206,7 +207,7 @@ class Report:
         self.coverage = {}
         self.assumptions = []
         self.known = [k for k in load_known() if k["property"] == pid and k["status"] == "known"]
-        os.makedirs(os.path.join(VERIF, "replays"), exist_ok=True)
+        os.makedirs(os.path.join(OUT, "replays"), exist_ok=True)
 
     def violation(self, signature, replay_obj, what=""):
         """Record a violation with a narrow signature. Known signatures are downgraded."""
@@ -219,7 +220,7 @@ class Report:
             self.violations.append((signature, None, what))
             return True
         name = "%s_%s_%d.json" % (self.pid, re.sub(r"[^A-Za-z0-9_.-]+", "_", signature)[:80], len(self.violations))
-        path = os.path.join(VERIF, "replays", name)
+        path = os.path.join(OUT, "replays", name)
         obj = {"property": self.pid, "signature": signature, "what": what, "seed": seed(), "tier": self.tier,
                "repo_head": repo_head(), "case": replay_obj}
         with open(path, "w") as f:
@@ -243,8 +244,8 @@ class Report:
         }
         if self.known_hit:
             ev["known_findings_reproduced"] = sorted(self.known_hit)
-        os.makedirs(os.path.join(VERIF, "evidence"), exist_ok=True)
-        with open(os.path.join(VERIF, "evidence", self.pid + ".json"), "w") as f:
+        os.makedirs(os.path.join(OUT, "evidence"), exist_ok=True)
+        with open(os.path.join(OUT, "evidence", self.pid + ".json"), "w") as f:
             json.dump(ev, f, indent=1, default=str)
         for sig, what in sorted(self.known_hit.items()):
             log("KNOWN-FINDING: property=%s %s [%s]" % (self.pid, what, sig))
